@@ -105,7 +105,9 @@ func (p *parser) next() token {
 	}
 	return t
 }
-func (p *parser) isKw(t token, kw string) bool { return t.Kind == tIdent && strings.EqualFold(t.Val, kw) }
+func (p *parser) isKw(t token, kw string) bool {
+	return t.Kind == tIdent && strings.EqualFold(t.Val, kw)
+}
 func (p *parser) peekKw(kws ...string) bool {
 	for i, kw := range kws {
 		if p.pos+i >= len(p.toks) || !p.isKw(p.toks[p.pos+i], kw) {
